@@ -29,15 +29,15 @@ Definition run_old (ops : list (list Z)) (threads : list nat) : st := fold_left 
 (* two coroutines, one lock round each; thread 1 is paused between its publishing CAS and the read of _next
    while thread 0 releases, hands over and (its own coroutine finished) runs coroutine 1 from its ready queue *)
 Theorem c07_old_code_double_resume :
-  let s := run_old [[1;0;0;0]; [1;0;0;0]] [0;0; 1;1;1; 0;0;0;0; 1]%nat in
+  let s := run_old [[1;0;0;0]; [1;0;0;0]] [0;0; 1;1;1;1; 0;0;0;0;0; 1]%nat in
   run (gthr s 0) = TRun 1%nat /\ run (gthr s 1) = TRun 1%nat /\      (* coroutine 1 executes on both threads *)
   nent (gtask s 1) = 2%nat /\ length (prog (gtask s 1)) = 0%nat /\   (* two entries for its single lock request *)
-  ovl s = true /\ elog s = [0; 1; 1]%nat.                            (* the scenario's overlap detector fires *)
+  ovl s = true /\ elog s = [(6, 0); (5, 1); (4, 0); (6, 1); (6, 1)]%nat.   (* the overlap detector fires: two entries of 1 *)
 Proof. vm_compute. repeat split. Qed.
 Print Assumptions c07_old_code_double_resume.
 
 (* the same thread choices on the repaired step: one entry each, no overlap, mutex handed over once *)
 Example c07_repaired_same_schedule :
-  let s := fold_left (fun s t => fst (fst (tstep s t))) [0;0; 1;1;1; 0;0;0;0; 1]%nat (init [[1;0;0;0]; [1;0;0;0]]) in
-  run (gthr s 1) = TIdle /\ nent (gtask s 1) = 1%nat /\ ovl s = false /\ elog s = [0; 1]%nat.
+  let s := fold_left (fun s t => fst (fst (tstep s t))) [0;0; 1;1;1;1; 0;0;0;0;0; 1]%nat (init [[1;0;0;0]; [1;0;0;0]]) in
+  run (gthr s 1) = TIdle /\ nent (gtask s 1) = 1%nat /\ ovl s = false /\ elog s = [(6, 0); (5, 1); (4, 0); (6, 1)]%nat.
 Proof. vm_compute. repeat split. Qed.
